@@ -46,6 +46,10 @@ theorem fact_convert_wiring :
 theorem fact_api_shape : releaseDefaultsToSts = true ∧ listDefaultsToSts = true ∧ releaseMatchesKey = true := by
   decide
 
+/-- every handler shape the model transcribes (the two loops of `ReleaseIPs` — one fresh release request appended per
+    releasable entry, each executed in order —, `convert`, the paging calls of `ListIPs`) was recognised in the source -/
+theorem fact_handler_shapes : shapeErrors = [] := by decide
+
 /-- the constants of the key grammar -/
 theorem fact_constants :
     poolPrefix = "pool__".toList ∧ dpPrefix = "dp_".toList ∧ stsPrefix = "sts_".toList ∧
@@ -245,6 +249,32 @@ theorem release_request_only_owners (a : Alloc) (podInLister running : Entry →
     (h : (releaseAll a podInLister running es).get ip' ≠ a.get ip') :
     ∃ e ∈ es, e.ip = ip' ∧ a.get ip' = some (releaseKey e) :=
   releaseAll_footprint a podInLister running es ip' h
+
+/-- the handler as written (`releaseRequest`: a pre-check loop over all entries, then the releases in order, entries
+    of one POST processed together) ends in the same table as entry-by-entry processing, so the footprint theorem
+    holds for a request carrying any number of entries: whatever changed was named by an entry with that ip whose
+    rebuilt key was the record's key -/
+theorem release_handler_only_owners (a : Alloc) (podInLister running : Entry → Bool) (es : List Entry) (ip' : Nat)
+    (h : (releaseRequest a podInLister running es).1.get ip' ≠ a.get ip') :
+    (releaseRequest a podInLister running es).1 = releaseAll a podInLister running es ∧
+    ∃ e ∈ es, e.ip = ip' ∧ a.get ip' = some (releaseKey e) := by
+  rw [releaseRequest_state] at h
+  exact ⟨releaseRequest_state a podInLister running es, releaseAll_footprint a podInLister running es ip' h⟩
+
+/-- the response is consistent with the final state: the ip of every posted entry that is still allocated after
+    the request is in the `unreleased` list (equivalently: an ip not reported unreleased is free afterwards) -/
+theorem release_handler_unreleased_consistent (a : Alloc) (podInLister running : Entry → Bool) (es : List Entry)
+    (e : Entry) (he : e ∈ es) (h : (releaseRequest a podInLister running es).1.get e.ip ≠ none) :
+    e.ip ∈ (releaseRequest a podInLister running es).2 :=
+  releaseRequest_consistent a podInLister running es e he h
+
+/-- non-vacuity: one request with the owner entries of ips 1 and 2, a foreign entry for ip 3 and a duplicate:
+    1 and 2 are released, 3 stays and is reported -/
+example :
+    let a : Alloc := [(1, "sts_n_a_a-0".toList), (2, "sts_n_a_a-1".toList), (3, "sts_n_b_b-0".toList)]
+    let e (ip : Nat) (pod : String) : Entry := ⟨ip, "n".toList, "a".toList, pod.toList, [], "statefulset".toList⟩
+    releaseRequest a (fun _ => false) (fun _ => false) [e 1 "a-0", e 3 "a-0", e 2 "a-1", e 1 "a-0"]
+      = ([(3, "sts_n_b_b-0".toList)], [3]) := by decide
 
 /-- a release that reports success did release the named record (and the pod was not running) -/
 theorem release_releases (a : Alloc) (running : Bool) (ip : Nat) (key : Str)
